@@ -192,7 +192,12 @@ def asV(v):
     if isinstance(v, ClassRef):
         return z3.Const("class_" + v.name, V)
     if isinstance(v, Closure):
-        return z3.Const("closure_%s_%d" % (v.fdef.name, v.fdef.lineno), V)
+        # a nested function as a value: identified by its (location-free) body, so that real and spec closures compare structurally
+        import ast as _ast
+        import hashlib as _h
+        body = "|".join(_ast.dump(x) for x in v.fdef.body if not (isinstance(x, _ast.Expr) and isinstance(x.value, _ast.Constant)))
+        sig = ",".join(a.arg for a in v.fdef.args.args)
+        return z3.Const("closure_%s" % _h.sha1((sig + ":" + body).encode()).hexdigest()[:16], V)
     if isinstance(v, ExcVal):
         return app("exc_value", IntV(z3.IntVal(EXC_CODE.get(v.cls, 0))), asV(v.msg))
     if z3.is_expr(v):
